@@ -20,3 +20,13 @@ def chain_swap_step(genotype_i: A[i1, 2], llk_i: float, temp_i: float, genotype_
     modifies(genotype_i, genotype_j)
     # C09: genotypes and likelihoods are exchanged together, or nothing changes
     ensures((val(genotype_i) == old(genotype_j) and val(genotype_j) == old(genotype_i) and result[0] == llk_j and result[1] == llk_i) or (val(genotype_i) == old(genotype_i) and val(genotype_j) == old(genotype_j) and result[0] == llk_i and result[1] == llk_j))
+    with after_call("log_genotype_prior", 0):
+        unfold(GPRIOR(genotype_i, len(genotype_i), genotype_i.shape[1], log_unique_haplotypes, inbreeding))
+        lemma_laprior_ext(dosage, arr1(lambda q: DOSE(genotype_i, q, 0, genotype_i.shape[1], len(genotype_i))), len(genotype_i), log_unique_haplotypes, inbreeding)
+    with after_call("log_genotype_prior", 1):
+        unfold(GPRIOR(genotype_j, len(genotype_i), genotype_i.shape[1], log_unique_haplotypes, inbreeding))
+        lemma_laprior_ext(dosage, arr1(lambda q: DOSE(genotype_j, q, 0, genotype_i.shape[1], len(genotype_i))), len(genotype_i), log_unique_haplotypes, inbreeding)
+    with after_stmt("acceptance = chain_swap_acceptance(llk_i, prior_i, temp_i, llk_j, prior_j, temp_j)"):
+        # C01: the exchange is accepted with probability min(1, exp((U_j - U_i)(T_i - T_j))), U = llk + GPRIOR(genotype)
+        # (lemma_exchange_detailed_balance: this acceptance is in detailed balance for the product of tempered targets)
+        assert_(acceptance == ite(exp(((llk_j + GPRIOR(genotype_j, len(genotype_i), genotype_i.shape[1], log_unique_haplotypes, inbreeding)) - (llk_i + GPRIOR(genotype_i, len(genotype_i), genotype_i.shape[1], log_unique_haplotypes, inbreeding))) * (temp_i - temp_j)) > 1.0, 1.0, exp(((llk_j + GPRIOR(genotype_j, len(genotype_i), genotype_i.shape[1], log_unique_haplotypes, inbreeding)) - (llk_i + GPRIOR(genotype_i, len(genotype_i), genotype_i.shape[1], log_unique_haplotypes, inbreeding))) * (temp_i - temp_j))))
